@@ -32,13 +32,13 @@ def gen_sequences(tier, rng):
     ndup = 6 if tier == 'quick' else 7
     for n in range(1, nperm + 1):
         for i, perm in enumerate(itertools.permutations(range(1, n + 1))):
-            fl = [('own', 'int'), ('own', 'addr'), ('chain', 'lex'), ('own', 'diff'), ('own', 'wide'), ('own', 'counted')][i % 6]
+            fl = [('own', 'int'), ('own', 'addr'), ('chain', 'lex'), ('own', 'diff'), ('own', 'wide'), ('own', 'counted'), ('own', 'vecsize')][i % 7]
             yield ('perm', fl[0], fl[1], [[k] for k in perm], 1, [[k] for k in range(0, n + 2)])
     for ln in range(1, ndup + 1):
         for i, seq in enumerate(itertools.product(range(1, 5), repeat=ln)):
             if len(set(seq)) == ln and ln > 1 and tier == 'quick':
                 continue            # duplicate-free ones are covered by the permutations
-            fl = [('own', 'int'), ('chain', 'lex'), ('own', 'diff'), ('own', 'wide'), ('own', 'counted')][i % 5]
+            fl = [('own', 'int'), ('chain', 'lex'), ('own', 'diff'), ('own', 'wide'), ('own', 'counted'), ('own', 'vecsize')][i % 6]
             yield ('dups', fl[0], fl[1], [[k] for k in seq], 1, [[k] for k in range(0, 6)])
     # lexicographic keys: prefixes, equal heads, empty key
     alphabet = [[], [1], [1, 1], [1, 2], [2], [2, 1], [1, 1, 1], [0], [-1, 5], [1, 2, 3]]
@@ -51,7 +51,7 @@ def gen_sequences(tier, rng):
     for r in range(300 if tier == 'quick' else 5000):
         span = rng.choice([6, 12, 24])
         seq = [[rng.randrange(span)] for _ in range(rng.randint(2, 16))]
-        fl = rng.choice([('own', 'int'), ('chain', 'lex'), ('own', 'lex'), ('chain', 'lex'), ('own', 'wide'), ('own', 'counted')])
+        fl = rng.choice([('own', 'int'), ('chain', 'lex'), ('own', 'lex'), ('chain', 'lex'), ('own', 'wide'), ('own', 'counted'), ('own', 'vecsize')])
         yield ('interleaved', fl[0], fl[1], seq, 1, ('inline', span))
     # the intrusive flavour does not own its nodes: the node OBJECT that is already linked is offered again -- every node of every
     # small tree (root, inner nodes, leaves), each followed by the full observation; the offer is ignored (an equal element, the
